@@ -346,7 +346,7 @@ class ModelCacheMixin:
 
     def _optimum_is_cached(self, e, m):
         # an expression may only be marked min/max-exhausted if a cached model witnesses the optimum
-        return self.variables.issuperset(e.variables) and m in self._get_solutions(e, allow_unconstrained=False)
+        return self.variables.issuperset(e.variables) and m in self._get_solutions(e)
 
     def min(self, e, extra_constraints=(), signed=False, exact=None):
         cached = []
@@ -354,9 +354,9 @@ class ModelCacheMixin:
         # the cached models only witness the optimum of the constraints themselves (no extra constraints), and the
         # signed and unsigned optima have different witnesses
         if len(extra_constraints) == 0 and (e.hash() in self._eval_exhausted or e.hash() in exhausted):
-            # we set allow_unconstrained to False because we expect all returned values for e are returned by Z3,
-            # instead of some arbitrarily assigned concrete values.
-            cached = self._get_solutions(e, extra_constraints=extra_constraints, allow_unconstrained=False)
+            # cached models are kept only while they satisfy the constraints with absent variables defaulted (that is
+            # how _add revalidates them and how eval() enumerated the values), so they must be read the same way here
+            cached = self._get_solutions(e, extra_constraints=extra_constraints)
 
         if len(cached) > 0:
 
@@ -374,7 +374,7 @@ class ModelCacheMixin:
         cached = []
         exhausted = self._max_signed_exhausted if signed else self._max_exhausted
         if len(extra_constraints) == 0 and (e.hash() in self._eval_exhausted or e.hash() in exhausted):
-            cached = self._get_solutions(e, extra_constraints=extra_constraints, allow_unconstrained=False)
+            cached = self._get_solutions(e, extra_constraints=extra_constraints)
 
         if len(cached) > 0:
 
